@@ -285,6 +285,13 @@ class TreeOracle:
                         ks = [k for k, _ in inorder(t, [])]
                         if ks != [k for k, _ in I.sorted_items()]:
                             err = "after `%s`: keys in search order %r differ from the ideal map's %r" % (op, ks[:6], [k for k, _ in I.sorted_items()][:6])
+            if err is None and "map" in a and st["shape"] is not None:
+                # the stored keys AND values (bytes and lengths, read through the public node fields)
+                # are exactly the ideal map's after every operation
+                items = inorder(parse_shape(st["shape"]), [])
+                if items != [tuple(x) for x in I.sorted_items()]:
+                    bad = [(x, y) for x, y in zip(items, [tuple(x) for x in I.sorted_items()]) if x != y][:2]
+                    err = "after `%s` the table's contents differ from the ideal map's: %r" % (op, bad or (len(items), len(I.d)))
             if err is None and "atomic" in a and st["shape"] is not None:
                 t = parse_shape(st["shape"])
                 items = inorder(t, [])
